@@ -76,7 +76,7 @@ def main():
                     shutil.copy(rp, os.path.join(out, "replay_%s.json" % c))
     finally:
         sh("git -C /repo checkout -- .")
-        sh("python3 /verif/tools/extract.py --gen; python3 /verif/tools/rs2lean.py --gen")   # the generated files must reflect the clean tree again
+        sh("python3 /verif/tools/extract.py --gen; python3 /verif/tools/rs2lean.py --gen; python3 /verif/tools/rs2lean_buf.py --gen")   # the generated files must reflect the clean tree again
     meta["checks"] = results
     meta["caught_by"] = [c for c, r in results.items() if r["exit"] == 1]
     json.dump(meta, open(os.path.join(out, "meta.json"), "w"), indent=1)
